@@ -126,6 +126,117 @@ def _verinfo_shape(idx, r):
     return first
 
 
+def _origins(cfg, rd, node, e, depth=4):
+    """Where the plain local `e` may have been bound when `node` runs: the ids of the defining CFG nodes (plain-name
+    copies followed), None when `e` is not a bound local.  Locals are told apart by this, never by their spelling."""
+    if not isinstance(e, ast.Name):
+        return None
+    ds = rd.get(node.id, {}).get(e.id)
+    if not ds:
+        return None
+    out = set()
+    for d in ds:
+        if d < 0:
+            out.add((d, e.id))          # the value of a parameter on entry
+            continue
+        v = assign_value(cfg.nodes[d], e.id)
+        if isinstance(v, ast.Name) and depth > 0:
+            sub = _origins(cfg, rd, cfg.nodes[d], v, depth - 1)
+            if sub is not None:
+                out |= sub
+                continue
+        out.add(d)
+    return frozenset(out)
+
+
+class _Returned:
+    """The local collection a function builds and returns, identified by role: `holds(node, expr)` is true when
+    the plain name `expr` can only hold, at `node`, an object the function returns."""
+
+    def __init__(self, fn):
+        self.fn = fn
+        self.cfg = fn.cfg()
+        self.rd = reaching_defs(self.cfg)
+        self.origins = set()
+        rets = [n for n in self.cfg.nodes if is_return(n)]
+        if not rets:
+            raise AnchorVanished("%s no longer returns the collection it builds" % short(fn))
+        for n in rets:
+            o = _origins(self.cfg, self.rd, n, n.ast.value) if n.ast.value is not None else None
+            if not o or any(isinstance(x, tuple) for x in o):
+                raise AnchorVanished("%s returns %s, not a collection it built in a local" % (
+                    short(fn), src(fn, n.ast.value) if n.ast.value is not None else "nothing"))
+            self.origins |= o
+
+    def holds(self, node, e):
+        o = _origins(self.cfg, self.rd, node, e)
+        return bool(o) and o <= self.origins
+
+    def entry_calls(self, node, tails=("add",)):
+        """calls R.add(..) at `node` with R the returned collection"""
+        return [c for c in node_calls(node) if isinstance(c.func, ast.Attribute) and c.func.attr in tails
+                and self.holds(node, c.func.value)]
+
+    def is_entry(self, node):
+        """`node` enters something into the returned collection: R.add(..) / R.setdefault(..) / R[k] = v."""
+        if self.entry_calls(node, ("add", "setdefault", "__setitem__")):
+            return True
+        a = node.ast
+        if node.kind == "stmt" and isinstance(a, (ast.Assign, ast.AugAssign, ast.AnnAssign)):
+            tgs = a.targets if isinstance(a, ast.Assign) else [a.target]
+            flat = []
+            for t in tgs:
+                flat.extend(t.elts if isinstance(t, (ast.Tuple, ast.List)) else [t])
+            return any(isinstance(t, ast.Subscript) and self.holds(node, t.value) for t in flat)
+        return False
+
+
+def _writer_constructions(idx, fn, writer_classes):
+    """[(call, [ClassInfo])]: the calls in `fn` that build a share write proxy - a call of a local every reaching
+    definition of which binds it to a write-proxy class (the class selection), or a call of such a class itself.
+    The local is identified by that role, not by its name."""
+    cfg = fn.cfg()
+    rd = reaching_defs(cfg)
+
+    def proxy(ci):
+        return isinstance(ci, ClassInfo) and any(c is w for c in ci.mro() for w in writer_classes)
+    out = []
+    for n in cfg.nodes:
+        for c in node_calls(n):
+            if not isinstance(c.func, ast.Name):
+                continue
+            ds = rd.get(n.id, {}).get(c.func.id)
+            if not ds:
+                ci = idx.resolve_expr(fn.module, c.func)
+                if proxy(ci):
+                    out.append((c, [ci]))
+                continue
+            bound = []
+            for d in sorted(ds):
+                v = assign_value(cfg.nodes[d], c.func.id) if d >= 0 else None
+                for _hop in range(4):           # class selection copied through plain names
+                    if not (isinstance(v, ast.Name) and d >= 0):
+                        break
+                    ds2 = rd.get(d, {}).get(v.id)
+                    if not ds2 or len(ds2) != 1 or min(ds2) < 0:
+                        break
+                    d = min(ds2)
+                    v = assign_value(cfg.nodes[d], v.id)
+                bound.append((v, idx.resolve_expr(fn.module, v) if v is not None else None))
+            if not any(proxy(ci) for (_v, ci) in bound):
+                continue
+            for (v, ci) in bound:
+                if not proxy(ci):
+                    raise AnalysisError("%s: the class the share writers are built from may be %s" % (
+                        fn.loc(c), src(fn, v) if v is not None else "an argument"))
+            classes = []
+            for (_v, ci) in bound:
+                if not any(ci is x for x in classes):
+                    classes.append(ci)
+            out.append((c, classes))
+    return out
+
+
 def _mode_infeasible(f, mode="MODE_READ"):
     """Edge facts that cannot hold while self.mode == `mode`."""
     if not f:
@@ -710,7 +821,14 @@ def run(ctx: Context):
         # recoverable / unrecoverable: k distinct share numbers
         kn = idx.func(SM + ".add_new_share")
         kps = first_positional_params(kn)
-        key_t = [assign_value(n, "key") for n in kn.cfg().nodes if assign_value(n, "key") is not None]
+        # the key a share is entered under: the subscript of the self._known_shares[..] store (through any local)
+        knn = FlowNorm(kn, depth=8)
+        key_t = []
+        for n in kn.cfg().nodes:
+            if "self._known_shares[]" in node_stores(n) and isinstance(n.ast, ast.Assign):
+                for t in n.ast.targets:
+                    if isinstance(t, ast.Subscript) and attr_path(t.value) == "self._known_shares":
+                        key_t.append(knn.resolve(n, t.slice))
         if len(key_t) != 1 or not isinstance(key_t[0], ast.Tuple):
             raise AnchorVanished("ServerMap.add_new_share key tuple")
         sh_in_key = [i for i, e in enumerate(key_t[0].elts) if attr_path(e) == "shnum"]
@@ -849,17 +967,10 @@ def run(ctx: Context):
                         if any(i == n.id for (i, _s) in visited):
                             r.violation(fn, fn.loc(m.ast), "the servermap is replaced before its highest seqnum is read")
             # writers get it
-            calls = calls_in_func(fn, "writer_class")
-            if not calls:
-                raise AnchorVanished("%s no longer builds its writers through writer_class(...)" % q)
-            classes = []
-            for x in own_nodes(fn.node):
-                if isinstance(x, ast.Assign) and any(attr_path(t) == "writer_class" for t in x.targets):
-                    ci = idx.resolve_expr(fn.module, x.value)
-                    if not isinstance(ci, ClassInfo):
-                        raise AnalysisError("writer_class bound to %s" % src(fn, x.value))
-                    classes.append(ci)
-            for c in calls:
+            built = _writer_constructions(idx, fn, [idx.cls(WP), idx.cls(SW)])
+            if not built:
+                raise AnchorVanished("%s no longer builds its writers from a write-proxy class" % q)
+            for (c, classes) in built:
                 for ci in classes:
                     init = ci.lookup("__init__")
                     ps = first_positional_params(init)
@@ -910,13 +1021,12 @@ def run(ctx: Context):
             r.require(ok, hs, hs.loc(n.ast), "highest_seqnum() is %s, not the maximum of verinfo[%d] over every version "
                       "in shares_available()" % (src(hs, v), iSEQ))
         # shares_available / make_versionmap enter every version / share unconditionally
-        for q, is_entry, over in ((SM + ".shares_available", lambda m: "all_shares[]" in node_stores(m),
-                                   r"^(list\()?self\.make_versionmap\(\)\.items\(\)\)?$"),
-                                  (SM + ".make_versionmap", lambda m: any(call_name(c) == "versionmap.add" for c in node_calls(m)),
-                                   r"^(list\()?self\._known_shares\.items\(\)\)?$")):
+        for q, over in ((SM + ".shares_available", r"^(list\()?self\.make_versionmap\(\)\.items\(\)\)?$"),
+                        (SM + ".make_versionmap", r"^(list\()?self\._known_shares\.items\(\)\)?$")):
             fn = idx.func(q)
             fnm = FlowNorm(fn, depth=8)
             cfg = fn.cfg()
+            is_entry = _Returned(fn).is_entry      # an entry made in the dict the function returns
             loops = [n for n in cfg.nodes if n.kind == "iter" and re.match(over, fnm.norm(n, n.ast.iter))]
             if len(loops) != 1:
                 raise AnchorVanished("%s: loop over all versions / shares" % q)
@@ -937,7 +1047,8 @@ def run(ctx: Context):
         mvn = FlowNorm(with_mv, depth=8)
         mv_loops = [n for n in with_mv.cfg().nodes if n.kind == "iter"
                     and re.match(r"^(list\()?self\._known_shares\.items\(\)\)?$", mvn.norm(n, n.ast.iter))]
-        mv_adds = [c for c in calls_in_func(with_mv, "add") if call_name(c) == "versionmap.add" and c.args]
+        mv_ret = _Returned(with_mv)
+        mv_adds = [c for n in with_mv.cfg().nodes for c in mv_ret.entry_calls(n) if c.args]
         if len(mv_loops) != 1 or len(mv_adds) != 1:
             raise AnchorVanished("make_versionmap: loop over _known_shares / versionmap.add")
         tg = mv_loops[0].ast.target
